@@ -10,8 +10,10 @@
 (* Receiver: one _receive() round reads every readable byte into the       *)
 (* tokenizer and, on end-of-file, closes the port.  Two consumption        *)
 (* patterns: "iterate" (for msg in port: blocking receives; the peer acts  *)
-(* while the receiver sleeps) and "poll" (one poll() after each group of   *)
-(* peer actions, then polling until the port reports closed).              *)
+(* while the receiver sleeps), "poll" (one poll() after each group of      *)
+(* peer actions, then polling until the port reports closed) and "pending" *)
+(* (one iter_pending() drain after each group - what MultiPort and         *)
+(* PortServer do with their member ports).                                 *)
 (***************************************************************************)
 EXTENDS Tokenizer
 
@@ -89,7 +91,22 @@ RecvPoll ==
           ELSE phase' = "env" /\ acts' = Append(acts, <<>>)
   /\ UNCHANGED <<stream, cut, sent, peerclosed>>
 
+\* "pending": iter_pending() after each group = poll() until None.  The first
+\* poll of an empty open port does one _receive() round; everything that round
+\* parsed is handed out, also when the same round saw end-of-file.
+RecvPending ==
+  /\ phase = "recv" /\ Mode = "pending"
+  /\ LET r == IF closed THEN [status |-> status, buf |-> buf, q |-> q, closed |-> closed] ELSE Round IN
+       /\ status' = r.status /\ buf' = r.buf /\ closed' = r.closed
+       /\ rcv' = IF closed THEN rcv ELSE sent
+       /\ delivered' = delivered \o r.q /\ q' = <<>>
+       /\ polls' = Append(polls, Flatten(r.q))              \* bytes handed out by this drain
+       /\ IF r.closed THEN phase' = "done" /\ UNCHANGED acts
+          ELSE phase' = "env" /\ acts' = Append(acts, <<>>)
+  /\ UNCHANGED <<stream, cut, sent, peerclosed>>
+
 Next == (\E k \in 1..Len(stream) : Write(k)) \/ PeerClose \/ Go \/ RecvIterate \/ RecvPoll
+           \/ RecvPending
 Spec == Init /\ [][Next]_vars
 
 \* ---- properties ----
